@@ -4,6 +4,7 @@ import (
 	"fmt"
 	"os"
 	"path/filepath"
+	"sort"
 	"strings"
 	"sync/atomic"
 	"time"
@@ -81,6 +82,70 @@ func ilContent(x *hx.Exec) string {
 	return c.Text
 }
 
+// readEligible: a single reading operation on the plain handle whose result is determined by the content.
+func readEligible(st *hx.Step) bool {
+	if st.Block || st.Gen != nil || len(st.Ops) != 1 {
+		return false
+	}
+	op := st.Ops[0]
+	if op.Write || op.RunDB != nil {
+		return false
+	}
+	switch op.Name {
+	case "ERandom", "KRandom", "KLen", "KScan", "EScan", "HScan", "ZScan", "KGet", "KKeys": // (random, or carrying modification times, which differ between twin databases)
+		return false
+	}
+	return true
+}
+
+// runC08ReadInterleave: a READ on the plain handle is one atomic look.  It is held before each of
+// its storage steps while a writer of what it reads commits; its result must be the one it gives
+// before or after that write.
+func runC08ReadInterleave(seed int64, n int) {
+	dir, err := os.MkdirTemp("", "sysrun-ilr-")
+	if err != nil {
+		fail("harness", err.Error(), nil)
+		return
+	}
+	defer os.RemoveAll(dir)
+	tweak := func(p *hx.Profile) {
+		p.MinSteps, p.MaxSteps = 8, 24
+		p.Expiry = false
+		p.ExpireProb = 0
+	}
+	pool := newCasePool(seed+57, allFamilies, 40, tweak, func(st *hx.Step) bool { return readEligible(st) || ilEligible(st) })
+	dbNo := 0
+	informative := map[string]int{}
+	defer func() { coverageCounters("read_interleaved_", informative) }()
+	taken, ci := 0, 0
+	for _, kind := range pool.kinds {
+		if taken >= n || len(sum.Failures) > 0 {
+			break
+		}
+		for try := 0; try < 40; try++ {
+			c, found := pool.Take(kind)
+			if !found {
+				break
+			}
+			if c.Target.Ops[0].Write {
+				break // kinds are per operation name: this kind is a write
+			}
+			// a read of something that is there
+			if len(c.Prefix) < 3 {
+				continue
+			}
+			ci++
+			before := sum.Cases
+			c08InterleaveCase(dir, pool, ci, &dbNo, c)
+			if sum.Cases > before {
+				taken++
+				informative[kind]++
+				break
+			}
+		}
+	}
+}
+
 func runC08Interleave(seed int64, n int) {
 	dir, err := os.MkdirTemp("", "sysrun-il-")
 	if err != nil {
@@ -131,6 +196,34 @@ func runC08Interleave(seed int64, n int) {
 			}
 		}
 	}
+}
+
+// writersOf: up to three generated writes of different kinds whose first argument is the key the
+// read r looks at.
+func writersOf(pool *casePool, r *hx.Op) []ilX {
+	rf := strings.Fields(r.Tok)
+	if len(rf) < 2 {
+		return nil
+	}
+	var out []ilX
+	var names []string
+	for name := range pool.Ops {
+		names = append(names, name)
+	}
+	sort.Strings(names)
+	for _, name := range names {
+		for _, op := range pool.Ops[name] {
+			f := strings.Fields(op.Tok)
+			if op.Write && len(f) >= 2 && f[1] == rf[1] && len(op.RelTTL) == 0 {
+				out = append(out, ilX{"writer-of-the-key:" + name, op})
+				break
+			}
+		}
+		if len(out) >= 3 {
+			break
+		}
+	}
+	return out
 }
 
 // rival finds, among the generated operations of the same name, the one that shares the longest
@@ -191,7 +284,7 @@ func c08InterleaveCase(dir string, pool *casePool, ci int, dbNoP *int, c opCase)
 	defer func() { *dbNoP = dbNo; hx.Plan.Stmt = false }()
 	{
 		w := c.Target.Ops[0]
-		onFile := ci%4 == 0
+		onFile := ci%4 == 0 || !w.Write // (a read is held while the writer commits: WAL lets it)
 		// the twins must reach the same pre-state: no random pops while building it
 		var prefix []*hx.Step
 		for _, st := range c.Prefix {
@@ -207,7 +300,7 @@ func c08InterleaveCase(dir string, pool *casePool, ci int, dbNoP *int, c opCase)
 		}
 		c.Prefix = prefix
 		// only operations that do something in their pre-state are worth interleaving
-		{
+		if w.Write {
 			dbNo++
 			x, err := ilOpen(dir, false, fmt.Sprintf("p%d", dbNo), c.Prefix)
 			if err != nil {
@@ -240,7 +333,14 @@ func c08InterleaveCase(dir string, pool *casePool, ci int, dbNoP *int, c opCase)
 		if next != nil {
 			xs = append(xs, ilX{"next-write", next})
 		}
-		if rv := rival(pool, w); rv != nil && rv != same && rv != next {
+		if !w.Write {
+			// a read: the second callers are writers of the key it reads
+			xs = []ilX{{"delete-keys", hx.KDelete("k1", "k2", "k3")}}
+			if next != nil {
+				xs = append(xs, ilX{"next-write", next})
+			}
+			xs = append(xs, writersOf(pool, w)...)
+		} else if rv := rival(pool, w); rv != nil && rv != same && rv != next {
 			xs = append(xs, ilX{"rival", rv})
 		}
 		if rv := rivalTail(pool, w); rv != nil && rv != next {
@@ -248,7 +348,9 @@ func c08InterleaveCase(dir string, pool *casePool, ci int, dbNoP *int, c opCase)
 		}
 		_ = same
 		// a second call of the very same operation (e.g. two SETNX-style calls racing) is always tried
-		xs = append(xs, ilX{"same-call", w})
+		if w.Write {
+			xs = append(xs, ilX{"same-call", w})
+		}
 		for _, xx := range xs {
 			if len(sum.Failures) > 0 {
 				return true
